@@ -177,13 +177,29 @@ def main(argv):
             body = fakenet.payload_bytes(remote.url, "good", net.rows.get(remote.url, 40), gz)
             remote = remote._replace(checksum=fakenet.sha256_hex(body))
         return orig_remote(remote, dataset_filename, dataset_folder, *a, **kw)
+    # every reference the library holds to the loader is rebound: module globals of every datasets module (the
+    # base module too - table-driven providers call the loader from there) and closure cells of generated functions.
+    # A by-name load of a remote name that still produces no capture is reported as "hook not reached" by the
+    # checks (inconclusive), never judged on unsubstituted checksums.
     nrebound = 0
     for modname, mod in list(sys.modules.items()):
-        if mod is not None and modname.startswith("traffic_weaver.datasets") and modname != "traffic_weaver.datasets._base":
+        if mod is not None and modname.startswith("traffic_weaver.datasets"):
             for attr, val in list(vars(mod).items()):
                 if val is orig_remote:
                     setattr(mod, attr, wrapper)
                     nrebound += 1
+    import gc
+    import types
+    for fn in gc.get_objects():
+        if isinstance(fn, types.FunctionType) and fn.__closure__ and fn is not wrapper and \
+                str(getattr(fn, "__module__", "")).startswith("traffic_weaver"):
+            for cell in fn.__closure__:
+                try:
+                    if cell.cell_contents is orig_remote:
+                        cell.cell_contents = wrapper
+                        nrebound += 1
+                except ValueError:
+                    pass
 
     kp = None
     kill = spec.get("kill")
@@ -264,8 +280,7 @@ def main(argv):
                     kw["gzip"] = gz
                 if "unpack" in step:
                     kw["unpack_dataset_columns"] = bool(step["unpack"])
-                data = base.load_csv_dataset_from_remote(remote, step.get("dataset_filename", "ds"),
-                                                         step.get("folder", "folder"), **kw)
+                data = orig_remote(remote, step.get("dataset_filename", "ds"), step.get("folder", "folder"), **kw)
             elif op == "parallel":
                 # several threads of ONE process load different names at the same time; the fake server holds every
                 # first response until all requests are in flight
